@@ -10,6 +10,11 @@ STMT  ["field", TY, name] | ["padding", w] | ["const", TY, name] | ["union"] | [
 TY    ["s", SC] | ["fa", SC, cap] | ["va", SC, cap]           (fixed / variable-length array, cap = capacity)
 SC    ["bool"] | ["byte"] | ["utf8"] | ["uint", w, "s"|"t"] | ["int", w, c] | ["float", w, c] | ["void", w] |
       ["comp", deprecated, service, max bits]                 (a referenced definition of the lookup namespace `dep`)
+ARG   an argument position (the extent `e`, an array capacity `cap`, or a second element of ["sealed"|"union"|"deprecated", ARG],
+      directives that take no expression) holds either a plain integer or a constant expression of ANY kind of value:
+      ["x", kind, payload, spelling(, "lt")]   kind = "int" (payload n: an integer written in an unusual way, e.g. `24 * 8 / 3`, `64.0`,
+      `0x40`), "q" ([p, q]: the non-integer rational p/q, written `p / q`, as a decimal real, with `** -1` ...), "bool", "str", "set"
+      ([n...]), "type" (a type expression); "lt" renders a variable-length capacity as `[<EXPR]` (capacity = value - 1)
 
    optional "history": [{"header": ..., "stmts": ...}...]  definitions read EARLIER IN THE SAME PROCESS (each from a namespace
    directory of its own), in this order, before the definition of the case itself; "seq": how the sequence was built
@@ -78,6 +83,119 @@ def name_ok(name: str) -> bool:
     return not reserved(name)
 
 
+# An argument position holds a plain integer or ["x", kind, payload, spelling(, "lt")]: a constant expression of any kind of value.
+TYPE_EXPRS = ["uint8", "float32", "bool", "uint8[2]", "truncated uint3", "int8[<=8]", "saturated float64", "byte[4]"]
+
+
+def is_x(v) -> bool:
+    return isinstance(v, list)
+
+
+def x_int(v) -> typing.Optional[int]:
+    """The integer an argument denotes; None when its value is not an integer (a non-integer rational, a boolean, a string,
+    a set, a type)."""
+    if not is_x(v):
+        return v
+    return v[2] if v[1] == "int" else None
+
+
+def x_kind(v) -> str:
+    if not is_x(v):
+        return "plain"
+    if v[1] == "int":
+        return "int-spelled-%d" % (v[3] % 8)
+    return v[1]
+
+
+def _decimal(p: int, q: int) -> typing.Optional[str]:
+    """p/q as a finite decimal real literal (q > 1, p >= 0), if it has one of at most 12 fractional digits."""
+    for k in range(1, 13):
+        if (10 ** k) % q == 0:
+            n = p * (10 ** k // q)
+            digits = str(n).rjust(k + 1, "0")
+            return digits[:-k] + "." + digits[-k:]
+    return None
+
+
+def x_text(v) -> str:
+    """The DSDL expression text of an argument (its value is the payload by construction of the spellings)."""
+    if not is_x(v):
+        return str(v)
+    kind, pl, sp = v[1], v[2], v[3]
+    if kind == "int":
+        n = pl
+        a = abs(n)
+        sign = "-" if n < 0 else ""
+        forms = [str(n), sign + hex(a), "(%d)" % n if n >= 0 else "(-%d)" % a, "%d * 1" % n, "%d / 2" % (2 * n), sign + "%d.0" % a,
+                 "%d / 3" % (3 * n), "%d + 1 - 1" % n, sign + "0b" + bin(a)[2:], "%d * 8 / 8" % n, sign + "%de0" % a, "%d / 7 * 7" % n]
+        return forms[sp % len(forms)]
+    if kind == "q":
+        p, q = pl
+        forms = ["%d / %d" % (p, q), "%d * %d ** -1" % (p, q), "(%d) / (%d)" % (p, q), "%d / %d + 0" % (p, q), "%d / %d" % (3 * p, 3 * q),
+                 "1 / %d * (%d)" % (q, p)]
+        dec = _decimal(abs(p), q)
+        if dec is not None:
+            forms += [("-" if p < 0 else "") + dec] * 3
+        if abs(p) == 1 and q & (q - 1) == 0:
+            forms += [("-(2 ** -%d)" if p < 0 else "2 ** -%d") % (q.bit_length() - 1)] * 2
+        return forms[sp % len(forms)]
+    if kind == "bool":
+        return (["true", "1 < 2", "!false", "true || false"] if pl else ["false", "2 < 1", "!true", "true && false"])[sp % 4]
+    if kind == "str":
+        return ("'%s'" if sp % 2 else '"%s"') % pl
+    if kind == "set":
+        return "{" + ", ".join(str(n) for n in pl) + "}"
+    if kind == "type":
+        return pl
+    raise ValueError(kind)
+
+
+def cap_of(t: list) -> typing.Optional[int]:
+    """The capacity an array type denotes (None: the capacity expression does not denote an integer)."""
+    n = x_int(t[2])
+    if n is not None and is_x(t[2]) and len(t[2]) > 4 and t[0] == "va":
+        n -= 1  # written `[<EXPR]`
+    return n
+
+
+def g_arg(rng, around: int, step: int, huge_ok: bool = True) -> list:
+    """A constant expression of a random kind of value for an argument position whose interesting integer values lie around
+    `around` (in multiples of `step`)."""
+    sp = rng.randrange(1 << 16)
+    k = rng.choice(["int", "int", "q", "q", "q", "huge", "neg", "zero", "bool", "str", "set", "type"])
+    if k == "int":
+        return ["x", "int", max(0, around + step * rng.choice([-1, 0, 0, 1, 2])), sp]
+    if k == "q":
+        q = rng.choice([2, 2, 3, 7, 8, 10, 16, 1000])
+        r = rng.choice([0, 1, 1, 5, 1000])
+        base = rng.choice([around, around, around + step, 0, 8 * r, -around - step])
+        p = base * q + rng.randint(1, q - 1)  # never a multiple of q: the value is not an integer
+        g = _gcd(abs(p), q)
+        return ["x", "q", [p // g, q // g], sp]
+    if k == "huge":
+        if not huge_ok:
+            return ["x", "int", around + step * rng.choice([3, 100]), sp]
+        return ["x", "int", rng.choice([around + step * 2 ** rng.choice([60, 61, 64, 100, 200]), 2 ** rng.choice([63, 64, 65, 128]) + rng.choice([0, 1, -1]),
+                                        10 ** rng.choice([19, 20, 30])]), sp]
+    if k == "neg":
+        return ["x", "int", -rng.choice([1, step, around + step, 8, 64]), sp]
+    if k == "zero":
+        return ["x", "int", 0, sp] if rng.random() < 0.7 else ["x", "q", [rng.choice([1, -1]), rng.choice([2, 8, 1024])], sp]
+    if k == "bool":
+        return ["x", "bool", rng.random() < 0.5, sp]
+    if k == "str":
+        return ["x", "str", rng.choice(["", "a", "8", "64", "abc", " "]), sp]
+    if k == "set":
+        return ["x", "set", rng.choice([[8], [around], [1, 2], [8, 16], [0]]), sp]
+    return ["x", "type", rng.choice(TYPE_EXPRS), sp]
+
+
+def _gcd(a: int, b: int) -> int:
+    while b:
+        a, b = b, a % b
+    return a or 1
+
+
 def scalar_ok(sc: list) -> bool:
     k = sc[0]
     if k in ("bool", "byte", "utf8", "comp"):
@@ -97,7 +215,12 @@ def scalar_ok(sc: list) -> bool:
 def type_ok(t: list) -> bool:
     if t[0] == "s":
         return scalar_ok(t[1])
-    return scalar_ok(t[1]) and t[2] >= 1
+    cap = cap_of(t)
+    if cap is None or cap < 1:
+        return False  # the capacity is an integer >= 1
+    if t[0] == "va" and cap >= 1 << 64:
+        return False  # the implicit length field is an unsigned integer of a legal width (at most 64 bits)
+    return scalar_ok(t[1])
 
 
 def sc_bits(sc: list) -> int:
@@ -119,8 +242,8 @@ def ty_bits(t: list) -> int:
     if t[0] == "s":
         return sc_bits(t[1])
     if t[0] == "fa":
-        return sc_bits(t[1]) * max(0, t[2])
-    cap = max(0, t[2])
+        return sc_bits(t[1]) * max(0, cap_of(t) or 0)
+    cap = max(0, cap_of(t) or 0)
     bl = cap.bit_length()
     prefix = 8 if bl <= 8 else 16 if bl <= 16 else 32 if bl <= 32 else 64
     return max(prefix, ty_align(t)) + sc_bits(t[1]) * cap
@@ -188,6 +311,8 @@ def rules_ok(case: dict) -> typing.Tuple[bool, str]:
     if len(schemas) > 2:
         return False, "more than one service response marker"
     service = len(schemas) == 2
+    if any(s[0] in ("sealed", "union", "deprecated") and len(s) > 1 for s in stmts):
+        return False, "expression given to a directive that takes none"
     # version
     if not (0 <= h["major"] <= 255 and 0 <= h["minor"] <= 255 and (h["major"], h["minor"]) != (0, 0)):
         return False, "version"
@@ -248,7 +373,10 @@ def rules_ok(case: dict) -> typing.Tuple[bool, str]:
         if union and len(fields) < 2:
             return False, "union with fewer than two variants"
         if m[0] == "extent":
-            if m[1] % 8 != 0 or m[1] < longest(fields, union):
+            e = x_int(m[1])
+            if e is None:
+                return False, "extent (not an integer number of bits)"
+            if e % 8 != 0 or e < longest(fields, union):
                 return False, "extent"
     if uses_service(case):
         return False, "service type used as a field type"
@@ -284,6 +412,9 @@ def sc_text(sc: list) -> str:
 def ty_text(t: list) -> str:
     if t[0] == "s":
         return sc_text(t[1])
+    if is_x(t[2]):
+        bound = "" if t[0] == "fa" else "<" if len(t[2]) > 4 else "<="
+        return "%s[%s%s]" % (sc_text(t[1]), bound, x_text(t[2]))
     if t[0] == "fa":
         return "%s[%d]" % (sc_text(t[1]), t[2])
     return "%s[<=%d]" % (sc_text(t[1]), t[2]) if t[2] % 2 else "%s[<%d]" % (sc_text(t[1]), t[2] + 1)
@@ -301,8 +432,8 @@ def stmt_text(s: list) -> str:
     if k == "marker":
         return "---"
     if k == "extent":
-        return "@extent %d" % s[1]
-    return "@" + k
+        return "@extent " + x_text(s[1])
+    return "@" + k + (" " + x_text(s[1]) if len(s) > 1 else "")
 
 
 def file_relpath(h: dict) -> str:
@@ -432,7 +563,8 @@ def violate(rng, case: dict) -> str:
                     "utf8-place", "byte-place", "deprecated-dep", "mode-both", "mode-none", "mode-twice", "extent-early", "union-late", "union-twice",
                     "deprecated-late", "deprecated-twice", "deprecated-response", "two-markers", "extent-odd", "extent-boundary", "extent-boundary",
                     "version", "version", "port", "port", "port-regulated", "port-regulated", "long-name", "type-name", "ns-name", "service-field",
-                    "const-type", "kelvin"])
+                    "const-type", "kelvin", "extent-value", "extent-value", "extent-value", "capacity-value", "capacity-value", "directive-arg",
+                    "capacity-boundary", "capacity-boundary", "capacity-boundary"])
     fidx = _attr_idx(case, ("field",))
     aidx = _attr_idx(case)
     if k == "width" and fidx:
@@ -579,6 +711,60 @@ def violate(rng, case: dict) -> str:
             h["short"] = rng.choice([KELVIN, "A" + KELVIN, KELVIN + "1"])
         else:
             h["ns"].append(rng.choice([KELVIN, "x" + KELVIN]))
+    elif k == "extent-value":
+        # the extent given by a constant expression of any kind of value (integer written in an unusual way, non-integer
+        # rational, huge, negative, zero, boolean, string, set, type), around the smallest legal extent of the schema
+        for n, sc in enumerate(schemas):
+            ms = [i for i, s in enumerate(sc) if s[0] in ("sealed", "extent")]
+            if len(ms) == 1 and (rng.random() < 0.7 or len(schemas) == 1):
+                union = any(s[0] == "union" for s in sc)
+                fields = [attr_type(a) for a in sc if is_attr(a) and a[0] != "const"]
+                del sc[ms[0]]
+                sc.append(["extent", g_arg(rng, longest(fields, union), 8)])
+        case["stmts"] = _join(schemas)
+    elif k == "capacity-value" and fidx:
+        # an array capacity given by a constant expression of any kind of value
+        i = rng.choice(fidx)
+        sc = st[i][1][1]
+        kind = "va" if sc[0] == "utf8" else rng.choice(["fa", "va", "va"])
+        v = g_arg(rng, rng.choice([1, 1, 2, 255, 256]), 1)
+        if kind == "va":
+            if rng.random() < 0.4:
+                v.append("lt")
+                if x_int(v) is not None and rng.random() < 0.7:
+                    v[2] += 1  # `[<n+1]` is `[<=n]`
+        st[i][1] = [kind, sc, v]
+    elif k == "capacity-boundary" and fidx:
+        # capacities at the ends of the ranges of the implicit length field (8/16/32/64 bits) and beyond the widest one; a
+        # variable-length array needs a length field of a legal width (capacity < 2**64), a fixed-length array has none
+        i = rng.choice(fidx)
+        sc = st[i][1][1]
+        kind = "va" if sc[0] == "utf8" else rng.choice(["fa", "fa", "va", "va", "va"])
+        b = rng.choice([8, 16, 32, 64, 64, 64])
+        n = rng.choice([(1 << b) - 1, 1 << b, (1 << b) + 1, (1 << b) - 2] + ([(1 << 64) + 1, 1 << 70, 1 << 65, 1 << 128] if b == 64 else []))
+        if rng.random() < 0.5:
+            st[i][1] = [kind, sc, n]  # plain decimal; `[<=n]` for odd n, `[<n+1]` for even n
+        else:
+            v = ["x", "int", n, rng.choice([0, 0, 1, 2, 7, 8])]
+            if kind == "va" and rng.random() < 0.5:
+                v[2] += 1
+                v.append("lt")
+            st[i][1] = [kind, sc, v]
+        if rng.random() < 0.8:
+            # keep the rest legal: an @extent of the schema is moved to (or just above) the new longest representation
+            schemas = split_schemas(st)
+            for sch in schemas:
+                ms = [j for j, x in enumerate(sch) if x[0] == "extent"]
+                if len(ms) == 1 and any(x is st[i] for x in sch):
+                    union = any(x[0] == "union" for x in sch)
+                    fields = [attr_type(a) for a in sch if is_attr(a) and a[0] != "const"]
+                    sch[ms[0]] = ["extent", longest(fields, union) + 8 * rng.choice([0, 0, 1])]
+            case["stmts"] = _join(schemas)
+    elif k == "directive-arg":
+        # @sealed / @union / @deprecated take no expression, whatever its value
+        ds = [i for i, s in enumerate(st) if s[0] in ("sealed", "union", "deprecated") and len(s) == 1]
+        if ds:
+            st[rng.choice(ds)].append(g_arg(rng, rng.choice([0, 1, 8, 64]), 8))
     return k
 
 
@@ -726,6 +912,34 @@ def _join(schemas):
 
 # ------------------------------------------------------------------------------------------------- the suite
 
+ALWAYS_REJECTED = ["extent", 1]  # the model's stand-in for a statement whose argument no handler accepts (1 bit is never a legal extent)
+
+
+def model_stmt(s: list) -> list:
+    """The Lean model speaks about integer arguments only.  An argument given as a constant expression is replaced by the integer
+    it denotes; where it denotes none (non-integer rational, boolean, string, set, type) an extent becomes 1 bit and a capacity 0,
+    i.e. values the same rule of the model rejects; an expression behind @sealed / @union / @deprecated makes the statement one that
+    the model always rejects."""
+    if s[0] in ("sealed", "union", "deprecated") and len(s) > 1:
+        return list(ALWAYS_REJECTED)
+    if s[0] == "extent" and is_x(s[1]):
+        e = x_int(s[1])
+        return ["extent", e] if e is not None else list(ALWAYS_REJECTED)
+    if s[0] in ("field", "const") and s[1][0] in ("fa", "va") and is_x(s[1][2]):
+        cap = cap_of(s[1])
+        return [s[0], [s[1][0], s[1][1], cap if cap is not None else 0], s[2]]
+    return s
+
+
+def arg_positions(case: dict) -> typing.Iterator[typing.Tuple[str, list]]:
+    for s in case["stmts"]:
+        if s[0] in ("sealed", "union", "deprecated") and len(s) > 1:
+            yield "@" + s[0], s[1]
+        elif s[0] == "extent" and is_x(s[1]):
+            yield "@extent", s[1]
+        elif s[0] in ("field", "const") and s[1][0] in ("fa", "va") and is_x(s[1][2]):
+            yield "capacity" + {"fa": "", "va": "<="}[s[1][0]].replace("<=", "<" if len(s[1][2]) > 4 else "<="), s[1][2]
+
 
 def _ident(case: dict) -> str:
     h = case["header"]
@@ -835,7 +1049,7 @@ class RulesSuite(common.Suite):
             shutil.rmtree(tmp, ignore_errors=True)
 
     def model_case(self, case):
-        return {"id": case.get("id"), "header": case["header"], "stmts": case["stmts"]}
+        return {"id": case.get("id"), "header": case["header"], "stmts": [model_stmt(s) for s in case["stmts"]]}
 
     def compare(self, case, impl, model, prop):
         if "err" in model:
@@ -901,6 +1115,17 @@ class RulesSuite(common.Suite):
                 c = copy.deepcopy(case)
                 c["stmts"][i][1] = ["s", ["uint", 8, "s"]]
                 yield c
+        for i, s in enumerate(st):
+            if s[0] in ("sealed", "union", "deprecated") and len(s) > 1:
+                c = copy.deepcopy(case)
+                del c["stmts"][i][1:]
+                yield c
+            v = s[1] if s[0] == "extent" else s[1][2] if s[0] in ("field", "const") and s[1][0] in ("fa", "va") else None
+            if is_x(v) and v[3] != 0:
+                c = copy.deepcopy(case)
+                w = c["stmts"][i][1] if s[0] == "extent" else c["stmts"][i][1][2]
+                w[3] = 0  # the plainest spelling of the same value
+                yield c
 
     def features(self, case, impl):
         ok, why = rules_ok(case)
@@ -912,6 +1137,17 @@ class RulesSuite(common.Suite):
             yield "error:" + str(impl.get("soft_cls"))
         for v in case.get("violations") or []:
             yield "mutator:" + v
+        for st in case["stmts"]:
+            if st[0] == "field" and st[1][0] in ("fa", "va"):
+                cap = cap_of(st[1])
+                if cap is not None and cap >= 254:
+                    near = [(b, cap - (1 << b)) for b in (8, 16, 32, 64) if abs(cap - (1 << b)) <= 2]
+                    yield "capacity-at:%s:%s" % (st[1][0], "2^%d%+d" % near[0] if near else "beyond-2^64" if cap > 1 << 64 else "other")
+        for pos, v in arg_positions(case):
+            n = x_int(v)
+            yield "arg:%s:%s" % (pos, v[1] if v[1] != "int" else "huge" if abs(n) >= 1 << 60 else "negative" if n < 0 else "zero" if n == 0 else "integer")
+            if v[1] in ("int", "q"):
+                yield "arg-spelling:%s:%d" % (v[1], v[3] % 12)
         if case.get("history"):
             yield "history:%d" % len(case["history"])
             seq = str(case.get("seq") or "?").split("/")
